@@ -3,46 +3,14 @@ import LeptosModel.Proofs.OwnerEff
 # Proofs/OwnerRerun — every kind of owner-scoped re-run starts with a complete clean-up pass (C08)
 
 Memo recomputation (`runMemo`), the loop body of every effect-like value (`runEffect`: `Effect::new`
-/ `new_sync` / `new_isomorphic`, `Effect::watch`, `RenderEffect`, `AsyncDerived`), and a direct
+/ `new_sync` / `new_isomorphic`, `Effect::watch`, `RenderEffect::new` / `new_isomorphic`,
+`AsyncDerived`), every run of an `ImmediateEffect` (`immUpdate`, recursive runs included), and a direct
 `Owner::with_cleanup` (`runWc`) all factor as "`cleanupOwner` on the scope's owner, then the rest";
 the rest only performs core primitives, so what the pass killed stays dead and what it logged stays
 logged.  The clean-up does not look at what the previous run allocated (only plain arena values,
 only cleanups, only child owners, a mixture, nothing): `cleanupOwner` is the same pass in all cases.
 -/
 namespace Leptos.Owner
-
-/-- the log only grows along primitive steps -/
-def LogLe (a b : Core) : Prop := ∀ e, e ∈ a.log → e ∈ b.log
-
-theorem LogLe.frames (n : Nat) (st : Core) (fs : List Frame) : LogLe st (runFrames n st fs).1 :=
-  runFrames_rel (R := LogLe) (fun _ _ h => h) (fun _ _ _ h1 h2 e he => h2 e (h1 e he))
-    (fun st f e he => log_step_mono st f e he) n st fs
-
-theorem LogLe.prim {a b : Core} (hp : CorePrim a b) : LogLe a b := by
-  intro e he
-  cases hp with
-  | regCleanup tag nested drops => rw [regCleanup_log]; exact he
-  | newItem v => rw [newItem_log]; exact he
-  | addItemHandle k => exact he
-  | newOwnerUnder p paused hp => rw [newOwnerUnder_log]; exact he
-  | pass f hf => exact LogLe.frames _ _ _ e he
-  | provide ty v => rw [provide_log]; exact he
-  | useCtx ty => unfold useCtx; split <;> exact List.mem_append_left _ he
-  | takeCtx ty =>
-    unfold takeCtx; split
-    · simp only; rw [modOwner_log]; exact List.mem_append_left _ he
-    · exact List.mem_append_left _ he
-  | setPaused o p => unfold setPaused; rw [pauseWalk_log]; exact he
-  | setCur cur => exact he
-  | logEv ev hev => exact List.mem_append_left _ he
-
-theorem LogLe.reach {a b : Core} (h : CoreReach a b) : LogLe a b :=
-  CoreReach.rel (R := LogLe) (fun _ _ h => h) (fun _ _ _ h1 h2 e he => h2 e (h1 e he))
-    (fun _ _ hp => LogLe.prim hp) h
-
-theorem logHas_mono {a b : Core} (h : CoreReach a b) {cid : Nat} (hl : logHas cid a.log) : logHas cid b.log := by
-  obtain ⟨tag, ow, late, hm⟩ := hl
-  exact ⟨tag, ow, late, LogLe.reach h _ hm⟩
 
 /-! ### the rest of a re-run, after its clean-up pass -/
 
@@ -96,5 +64,23 @@ theorem runMemo_after {ex : St → BOp → St} (hex : SRex ex) (st : St) (m : Na
   split
   · exact key _ _ rfl
   · exact key _ _ rfl
+
+/-- a run of an `ImmediateEffect` (`update_if_necessary`, state `Dirty`, owner not paused) — the first
+one, a later one, or one that starts while an earlier run of the same effect is still in progress -/
+theorem immUpdate_after {ex : St → BOp → St} (hex : SRex ex) (st : St) (e : Nat) (er : EffRec)
+    (he : st.effs[e]? = some er) (hrun : (ownerPaused st.toCore er.owner || !er.dirty) = false) :
+    CoreReach (cleanupOwner st.toCore er.owner) (immUpdate ex st e).toCore := by
+  unfold immUpdate
+  rw [he]
+  simp only [hrun, Bool.false_eq_true, if_false]
+  refine sr_immRelease (a := st.lift (cleanupOwner · er.owner)) (sr_immEnd ?_ _ _) _
+  have key : ∀ S0 : St, S0.toCore = st.toCore →
+      SR (st.lift (cleanupOwner · er.owner)) (runScoped ex S0 e er.owner er.body) := by
+    intro S0 h0
+    have := runScoped_after hex S0 e er.owner er.body
+    rw [h0] at this
+    exact this
+  refine SR.react (st := runScoped ex _ e er.owner er.body) (key _ ?_) rfl
+  rfl
 
 end Leptos.Owner
